@@ -398,63 +398,7 @@ func checkC03(c *Ctx, r *Report) {
 	}
 
 	// ---- (3) AES serialiser
-	r.Rule("aes-iv-and-pad", "IV = the 16 prepended bytes filled by crypto/rand.Read before the encrypter is built with it; trailer 1..n,n; payload+n+1 ≡ 0 (mod 16), 0 ≤ n ≤ 15", 4)
-	if fn := c.Method("pkg/ipmi", "AES128CBC", "SerializeTo"); fn == nil {
-		r.Lost("ipmi.AES128CBC.SerializeTo")
-	} else {
-		name := c.FnName(fn)
-		r.Fn(name)
-		var preC, randC, encC, cryptC *ssa.Call
-		allInstrs(fn, false, func(in ssa.Instruction) {
-			if call, ok := in.(*ssa.Call); ok {
-				switch calleeName(&call.Call) {
-				case pre:
-					preC = call
-				case "crypto/rand.Read":
-					randC = call
-				case "crypto/cipher.NewCBCEncrypter":
-					encC = call
-				case "(crypto/cipher.BlockMode).CryptBlocks":
-					cryptC = call
-				}
-			}
-		})
-		if preC == nil || randC == nil || encC == nil || cryptC == nil {
-			r.Bad(name+"|shape", fn.Pos(), "expected PrependBytes, crypto/rand.Read, NewCBCEncrypter and CryptBlocks")
-		} else {
-			iv := extractOf(preC, 0)
-			okIV := iv != nil && randC.Call.Args[0] == iv && encC.Call.Args[1] == iv && mustPrecede(fn, randC, encC)
-			// rand error checked: encrypter unreachable on the error arm
-			okErr := false
-			for _, ifi := range ifsOf(fn) {
-				op, x, y, _, isBin := condOf(ifi.Cond)
-				if isBin && op == token.NEQ && isNilConst(y) {
-					if ex, ok := x.(*ssa.Extract); ok && ex.Tuple == ssa.Value(randC) {
-						if !reachAvoiding(fn, nil, nil, map[edge]bool{{ifi.Block(), ifi.Block().Succs[1]}: true})[encC.Block()] {
-							okErr = true
-						}
-					}
-				}
-			}
-			r.Check(okIV && okErr, name+"|IV", encC.Pos(), "IV bytes ← crypto/rand.Read, error checked, then NewCBCEncrypter(cipher, iv)", "the IV handed to the CBC encrypter is not the prepended 16 bytes freshly filled by crypto/rand.Read (a constant or reused IV)")
-			okKey := false
-			if ld, ok := encC.Call.Args[0].(*ssa.UnOp); ok && apOf(ld.X).SelString() == fAesCipher {
-				okKey = true
-			}
-			r.Check(okKey, name+"|cipher", encC.Pos(), "the layer's AES block cipher", "encryption does not use the layer's cipher")
-			// encrypted region: b.Bytes()[16:] taken after the prepend, dst == src
-			okReg := cryptC.Call.Args[0] == cryptC.Call.Args[1]
-			if sl, ok := cryptC.Call.Args[0].(*ssa.Slice); ok {
-				if bc, ok := sl.X.(*ssa.Call); !ok || calleeName(&bc.Call) != byt || !mustPrecede(fn, preC, bc) {
-					okReg = false
-				}
-			} else {
-				okReg = false
-			}
-			r.Check(okReg, name+"|encrypted region", cryptC.Pos(), "everything after the IV, in place, on the live buffer", "the encrypted region is not the live buffer contents after the IV")
-		}
-		checkAESPadArithmetic(c, r, fn)
-	}
+	checkAESSerialiser(c, r)
 	checkAESPadConvention(c, r)
 	checkHashAlwaysReset(c, r)
 	// the integrity hash handed to the wrapper is the negotiated algorithm's, keyed by K1 and
@@ -600,5 +544,87 @@ func checkHashAlwaysReset(c *Ctx, r *Report) {
 			continue
 		}
 		r.Check(ok, name+"|hash reset", pos, "written hash is reset on every path", "a path returns with data still written into the shared hash: the next digest (the next packet's AuthCode) is computed over leftovers")
+	}
+}
+
+// checkAESSerialiser: the confidentiality layer's serialiser — IV from crypto/rand into the
+// prepended bytes, the encrypter built from exactly that IV and used for exactly this packet,
+// pad arithmetic (shared with C08: decode(serialise(v)) = v for every packet a layer value
+// sends, not only its first).
+func checkAESSerialiser(c *Ctx, r *Report) {
+	const byt = "(github.com/google/gopacket.SerializeBuffer).Bytes"
+	const app = "(github.com/google/gopacket.SerializeBuffer).AppendBytes"
+	_, _ = byt, app
+	const pre = "(github.com/google/gopacket.SerializeBuffer).PrependBytes"
+	r.Rule("aes-iv-and-pad", "IV = the 16 prepended bytes filled by crypto/rand.Read before the encrypter is built with it; trailer 1..n,n; payload+n+1 ≡ 0 (mod 16), 0 ≤ n ≤ 15", 4)
+	if fn := c.Method("pkg/ipmi", "AES128CBC", "SerializeTo"); fn == nil {
+		r.Lost("ipmi.AES128CBC.SerializeTo")
+	} else {
+		name := c.FnName(fn)
+		r.Fn(name)
+		var preC, randC, encC, cryptC *ssa.Call
+		allInstrs(fn, false, func(in ssa.Instruction) {
+			if call, ok := in.(*ssa.Call); ok {
+				switch calleeName(&call.Call) {
+				case pre:
+					preC = call
+				case "crypto/rand.Read":
+					randC = call
+				case "crypto/cipher.NewCBCEncrypter":
+					encC = call
+				case "(crypto/cipher.BlockMode).CryptBlocks":
+					cryptC = call
+				}
+			}
+		})
+		if preC == nil || randC == nil || encC == nil || cryptC == nil {
+			r.Bad(name+"|shape", fn.Pos(), "expected PrependBytes, crypto/rand.Read, NewCBCEncrypter and CryptBlocks")
+		} else {
+			iv := extractOf(preC, 0)
+			okIV := iv != nil && randC.Call.Args[0] == iv && encC.Call.Args[1] == iv && mustPrecede(fn, randC, encC)
+			// rand error checked: encrypter unreachable on the error arm
+			okErr := false
+			for _, ifi := range ifsOf(fn) {
+				op, x, y, _, isBin := condOf(ifi.Cond)
+				if isBin && op == token.NEQ && isNilConst(y) {
+					if ex, ok := x.(*ssa.Extract); ok && ex.Tuple == ssa.Value(randC) {
+						if !reachAvoiding(fn, nil, nil, map[edge]bool{{ifi.Block(), ifi.Block().Succs[1]}: true})[encC.Block()] {
+							okErr = true
+						}
+					}
+				}
+			}
+			r.Check(okIV && okErr, name+"|IV", encC.Pos(), "IV bytes ← crypto/rand.Read, error checked, then NewCBCEncrypter(cipher, iv)", "the IV handed to the CBC encrypter is not the prepended 16 bytes freshly filled by crypto/rand.Read (a constant or reused IV)")
+			// ... and that encrypter — built in this call with this packet's IV — is the one that
+			// encrypts, on every path: a BlockMode kept from an earlier packet chains on from that
+			// packet's last ciphertext block while the header announces the fresh IV
+			okMode := cryptC.Call.Value == ssa.Value(encC) && mustPrecede(fn, encC, cryptC)
+			if !okMode {
+				os := viewOrigins(fn, cryptC.Call.Value)
+				okMode = len(os) > 0 && mustPrecede(fn, encC, cryptC)
+				for _, o := range os {
+					if o != ssa.Value(encC) {
+						okMode = false
+					}
+				}
+			}
+			r.Check(okMode, name+"|encrypter of this packet", cryptC.Pos(), "CryptBlocks runs on the encrypter built from this packet's IV", "the payload is not encrypted by the CBC encrypter built in this call from this packet's IV (a cached BlockMode continues the previous packet's chain: the first block does not decrypt under the IV in the header)")
+			okKey := false
+			if ld, ok := encC.Call.Args[0].(*ssa.UnOp); ok && apOf(ld.X).SelString() == fAesCipher {
+				okKey = true
+			}
+			r.Check(okKey, name+"|cipher", encC.Pos(), "the layer's AES block cipher", "encryption does not use the layer's cipher")
+			// encrypted region: b.Bytes()[16:] taken after the prepend, dst == src
+			okReg := cryptC.Call.Args[0] == cryptC.Call.Args[1]
+			if sl, ok := cryptC.Call.Args[0].(*ssa.Slice); ok {
+				if bc, ok := sl.X.(*ssa.Call); !ok || calleeName(&bc.Call) != byt || !mustPrecede(fn, preC, bc) {
+					okReg = false
+				}
+			} else {
+				okReg = false
+			}
+			r.Check(okReg, name+"|encrypted region", cryptC.Pos(), "everything after the IV, in place, on the live buffer", "the encrypted region is not the live buffer contents after the IV")
+		}
+		checkAESPadArithmetic(c, r, fn)
 	}
 }
